@@ -400,3 +400,139 @@ Print Assumptions C06_tie_header_dump.
 Theorem C06_tie_header_consts : Src3h.MLA_MAGIC = MAGIC /\ Src3h.MLA_FORMAT_VERSION = VERSION.
 Proof. exact (conj SrcTie3Header.magic_src SrcTie3Header.version_src). Qed.
 Check SrcTie3Header.header_src_examples.
+
+(* ---------- work package cfgT: the header the TRANSLATED ArchiveWriter::from_config dumps: the layers byte of the configuration as it is, the encryption part iff ENCRYPT is enabled; the bitflags constants ---------- *)
+From MLA Require Config ConfigProofs SrcTie3Cfg SrcTie3CfgR SrcTie3CfgEx.
+From MLAGen Require Src3f.
+Theorem C06_cfg_layers_consts_src : ltac:(let t := type of SrcTie3Cfg.layers_consts_src in exact t).
+Proof. exact SrcTie3Cfg.layers_consts_src. Qed.
+Print Assumptions C06_cfg_layers_consts_src.
+Theorem C06_cfg_to_persistent_src : ltac:(let t := type of SrcTie3Cfg.to_persistent_src in exact t).
+Proof. exact SrcTie3Cfg.to_persistent_src. Qed.
+Print Assumptions C06_cfg_to_persistent_src.
+Theorem C06_cfg_writer_from_config_src : ltac:(let t := type of SrcTie3Cfg.writer_from_config_src in exact t).
+Proof. exact SrcTie3Cfg.writer_from_config_src. Qed.
+Print Assumptions C06_cfg_writer_from_config_src.
+Theorem C06_cfg_writer_stack_layers : ltac:(let t := type of ConfigProofs.writer_stack_layers in exact t).
+Proof. exact ConfigProofs.writer_stack_layers. Qed.
+Print Assumptions C06_cfg_writer_stack_layers.
+Theorem C06_cfg_to_persistent_unknown_bit_differs : ltac:(let t := type of ConfigProofs.to_persistent_unknown_bit_differs in exact t).
+Proof. exact ConfigProofs.to_persistent_unknown_bit_differs. Qed.
+Print Assumptions C06_cfg_to_persistent_unknown_bit_differs.
+Theorem C06_cfg_writer_from_config_examples : ltac:(let t := type of SrcTie3Cfg.writer_from_config_examples in exact t).
+Proof. exact SrcTie3Cfg.writer_from_config_examples. Qed.
+Print Assumptions C06_cfg_writer_from_config_examples.
+(* ====================================================================================
+   Tie A level 1, work package encW (tools/src2v3_encw.py -> gen/Src3w.v): the WRITER side of encrypt.rs —
+   build_nonce, EncryptionLayerWriter::{new, renew_cipher}, LayerWriter::finalize, Write::{write, flush}, std's write_all over
+   the translated write — translated statement by statement with the TRANSLATED AesGcm256 of gen/Src3g.v as the cipher, and
+   proved simulated by EncLayer.ew_* with the cipher parameters DEFINED from the GCM model at the nonce prefix || be32(counter).
+   The format theorems of the encryption writer are carried onto the translated code.
+   ==================================================================================== *)
+From MLA Require SrcTie3EncW SrcTie3EncWCarry SrcTie3EncWFormat SrcTie3EncWEx.
+From MLAGen Require Src3w.
+Theorem C06_tie_encw_build_nonce_src : ltac:(let t := type of SrcTie3EncW.build_nonce_src in exact t).
+Proof. exact SrcTie3EncW.build_nonce_src. Qed.
+Print Assumptions C06_tie_encw_build_nonce_src.
+Theorem C06_tie_encw_new_src : ltac:(let t := type of SrcTie3EncW.elw_new_src in exact t).
+Proof. exact SrcTie3EncW.elw_new_src. Qed.
+Print Assumptions C06_tie_encw_new_src.
+Theorem C06_tie_encw_renew_src : ltac:(let t := type of SrcTie3EncW.elw_renew_src in exact t).
+Proof. exact SrcTie3EncW.elw_renew_src. Qed.
+Print Assumptions C06_tie_encw_renew_src.
+Theorem C06_tie_encw_write_sim : ltac:(let t := type of SrcTie3EncW.elw_write_sim in exact t).
+Proof. exact SrcTie3EncW.elw_write_sim. Qed.
+Print Assumptions C06_tie_encw_write_sim.
+Theorem C06_tie_encw_write_all_sim : ltac:(let t := type of SrcTie3EncW.elw_write_all_sim in exact t).
+Proof. exact SrcTie3EncW.elw_write_all_sim. Qed.
+Print Assumptions C06_tie_encw_write_all_sim.
+Theorem C06_tie_encw_finalize_sim : ltac:(let t := type of SrcTie3EncW.elw_finalize_sim in exact t).
+Proof. exact SrcTie3EncW.elw_finalize_sim. Qed.
+Print Assumptions C06_tie_encw_finalize_sim.
+Theorem C06_tie_encw_flush_src : ltac:(let t := type of SrcTie3EncW.elw_flush_src in exact t).
+Proof. exact SrcTie3EncW.elw_flush_src. Qed.
+Print Assumptions C06_tie_encw_flush_src.
+(* new; write_all of every piece; finalize — of the translated code — ends as EncWriter.ew_archive does: same error, same panic,
+   or related final states (the inner writer holds base ++ ew_out) *)
+Theorem C06_tie_encw_archive_sim : ltac:(let t := type of SrcTie3EncW.src_archive_sim in exact t).
+Proof. exact SrcTie3EncW.src_archive_sim. Qed.
+Print Assumptions C06_tie_encw_archive_sim.
+Theorem C06_tie_encw_consts_src : ltac:(let t := type of SrcTie3EncW.encw_consts_src in exact t).
+Proof. exact SrcTie3EncW.encw_consts_src. Qed.
+Print Assumptions C06_tie_encw_consts_src.
+
+(* C01_enc_writer_canonical on the translated code: whatever the sizes of the buffers, the bytes left in the inner writer
+   (which held `base`, the header) are the documented layout: chunks of CHUNK ciphertext bytes each followed by its tag *)
+Theorem C06_enc_writer_canonical_src :
+  forall E, (forall k b, length b = 16%nat -> length (E k b) = 16%nat) ->
+  forall key prefix, len key = 32 -> len prefix = 8 ->
+  forall si sl gmul CHUNK CIPHERBUF, 0 < CHUNK -> forall is_interrupted, is_interrupted EState = false ->
+  forall ss base fuel pieces x,
+    SrcTie3EncW.src_archive E key prefix si sl gmul CHUNK CIPHERBUF is_interrupted ss base fuel pieces = Ok x ->
+    Src3w.elw_inner bytes x =
+    base ++ EncLayer.enc_format CHUNK (SrcTie3EncW.ks_gcm E key prefix) (SrcTie3EncW.tagc_gcm E key prefix gmul) (concat pieces).
+Proof. exact SrcTie3EncWCarry.enc_writer_canonical_src. Qed.
+Print Assumptions C06_enc_writer_canonical_src.
+(* ... and below 2^32 - 1 chunks the translated writer does succeed *)
+Theorem C06_enc_writer_total_src :
+  forall E, (forall k b, length b = 16%nat -> length (E k b) = 16%nat) ->
+  forall key prefix, len key = 32 -> len prefix = 8 ->
+  forall si sl gmul CHUNK CIPHERBUF, 0 < CHUNK -> forall is_interrupted, is_interrupted EState = false ->
+  forall ss base fuel pieces,
+    0 < CIPHERBUF -> len (concat pieces) / CHUNK + 1 < 2 ^ 32 ->
+    (forall b, In b pieces -> (N.to_nat (len b) < fuel)%nat) ->
+    exists x, SrcTie3EncW.src_archive E key prefix si sl gmul CHUNK CIPHERBUF is_interrupted ss base fuel pieces = Ok x /\
+      Src3w.elw_inner bytes x =
+      base ++ EncLayer.enc_format CHUNK (SrcTie3EncW.ks_gcm E key prefix) (SrcTie3EncW.tagc_gcm E key prefix gmul) (concat pieces).
+Proof. exact SrcTie3EncWCarry.enc_writer_total_src. Qed.
+Print Assumptions C06_enc_writer_total_src.
+(* a chunk on the wire, with the cipher parameters of the tie, IS the one-shot GCM of the specification under the nonce
+   prefix || be32(chunk index), no associated data, followed by its tag *)
+Theorem C06_chunk_is_gcm_spec_src :
+  forall E, (forall k b, length b = 16%nat -> length (E k b) = 16%nat) ->
+  forall key prefix, len key = 32 -> len prefix = 8 -> forall gmul i pt,
+    wf_bytes prefix -> len pt <= gcm_max_bytes ->
+    EncLayer.chunk_enc (SrcTie3EncW.ks_gcm E key prefix) (SrcTie3EncW.tagc_gcm E key prefix gmul) i pt =
+    fst (gcm_spec (E key) gmul (prefix ++ be_bytes 4 i) [] pt) ++ snd (gcm_spec (E key) gmul (prefix ++ be_bytes 4 i) [] pt).
+Proof. exact SrcTie3EncWCarry.chunk_enc_is_gcm_spec. Qed.
+Print Assumptions C06_chunk_is_gcm_spec_src.
+(* at the concrete AES-256 / GHASH they are Format.v's AEAD under FORMAT.md's per-chunk nonce: cipher_agrees is a theorem *)
+Theorem C06_cipher_agrees_src : forall CHUNK kd nonce8 n,
+  length kd = 32%nat -> length nonce8 = 8%nat -> wf_bytes nonce8 -> CHUNK <= gcm_max_bytes ->
+  cipher_agrees CHUNK (SrcTie3EncW.ks_gcm ArchiveInst.E_aes256 kd nonce8) (SrcTie3EncW.tagc_gcm ArchiveInst.E_aes256 kd nonce8 gf_mul)
+                aseal_gcm kd nonce8 n.
+Proof. exact SrcTie3EncWFormat.src_cipher_agrees. Qed.
+Print Assumptions C06_cipher_agrees_src.
+(* C06_format_decode_writer_enc with the TRANSLATED encryption writer as subject: the archive writer's block stream cut into
+   any pieces, pushed through the translated layer over an inner writer already holding the header, is decoded by FORMAT.md's
+   decoder to exactly the files written *)
+Theorem C06_format_decode_writer_enc_src {LIM : Limit} :
+  forall CHUNK BLOCK CIPHERBUF unbr FNMAX order ops sf rs is_interrupted ss si sl fuel pcs x eph rpub rpubs cpriv cands kd nonce8,
+  0 < CHUNK -> CHUNK <= gcm_max_bytes -> is_interrupted EState = false ->
+  (forall f, Permutation.Permutation (order f) f) ->
+  Writer.wrun FNMAX Src.BT_FileStart Src.BT_FileContent Src.BT_EndOfArchiveData Src.BT_EndOfFile Sha256.sha256 order
+              Writer.w_init (ops ++ [Writer.OFinalize]) = (sf, rs) ->
+  Forall (fun r => is_ok r = true) rs -> forallb RoundTripWriter.op_utf8 ops = true ->
+  len (Writer.w_out sf) < 2 ^ 64 -> len (Blocks.ser_footer_map (order (Writer.w_footer sf))) < 2 ^ 32 ->
+  concat pcs = Writer.w_out sf ->
+  let hdr := ser_header (mkH L_ENCRYPT (Some (mkEH (X25519.x25519_base eph)
+                  (wrap aseal_gcm kd (map (fun r => dhkey_x25519 eph r) (rpub :: rpubs))) nonce8))) in
+  SrcTie3EncW.src_archive ArchiveInst.E_aes256 kd nonce8 si sl gf_mul CHUNK CIPHERBUF is_interrupted ss hdr fuel pcs = Ok x ->
+  X25519.x25519 cpriv (X25519.x25519_base eph) = X25519.x25519 eph rpub ->
+  length kd = 32%nat -> length nonce8 = 8%nat -> wf_bytes nonce8 -> len rpubs < 2 ^ 63 ->
+  (len (Writer.w_out sf) + CHUNK - 1) / CHUNK <= 2 ^ 32 ->
+  decode_v1 CHUNK BLOCK unbr (Src3w.elw_inner bytes x) (cpriv :: cands) = Ok (written Sha256.sha256 ops).
+Proof. exact SrcTie3EncWFormat.decode_writer_v1_enc_src. Qed.
+Print Assumptions C06_format_decode_writer_enc_src.
+(* non-vacuity, evaluated by vm_compute THROUGH THE GENERATED CODE (gen/Src3w.v + gen/Src3g.v, concrete AES-256 / GHASH, scaled
+   constants): 130 bytes in pieces of 5, 0, 100, 25 = three chunks, each the one-shot SP 800-38D encryption (Concrete/GcmSpec.v)
+   under prefix || 0, 1, 2 followed by its tag; no write = one bare tag; an exact multiple of CHUNK = no extra empty chunk *)
+Example C06_enc_writer_src_nonvacuous :
+  SrcTie3EncWEx.ex_run [takeN 5 SrcTie3EncWEx.ex_data; []; sliceN 5 100 SrcTie3EncWEx.ex_data; dropN 105 SrcTie3EncWEx.ex_data]
+  = SrcTie3EncWEx.ex_base ++ SrcTie3EncWEx.ex_chunk 0 (takeN 64 SrcTie3EncWEx.ex_data)
+    ++ SrcTie3EncWEx.ex_chunk 1 (sliceN 64 64 SrcTie3EncWEx.ex_data) ++ SrcTie3EncWEx.ex_chunk 2 (dropN 128 SrcTie3EncWEx.ex_data)
+  /\ SrcTie3EncWEx.ex_run [] = SrcTie3EncWEx.ex_base ++ SrcTie3EncWEx.ex_chunk 0 [].
+Proof. vm_compute. split; reflexivity. Qed.
+Check SrcTie3EncWEx.src_writer_edges.
+Check SrcTie3EncWEx.src_writer_hyps.
+Check SrcTie3EncWEx.src_writer_bad_offset_refused.
